@@ -142,8 +142,23 @@ class Ctx:
         return self.tier == "thorough"
 
     # ------------------------------------------------------------------ lean
+    def _hold_genbuild(self):
+        """Checks may run concurrently (and several regenerate the same Gen module): the phase regenerate -> build -> audit of one
+        check is made atomic with respect to other checks by one inter-process lock, released after the audit / at the end."""
+        if getattr(self, "_gb", None) is None:
+            os.makedirs(os.path.join(LEAN, ".lake"), exist_ok=True)
+            self._gb = open(os.path.join(LEAN, ".lake", "genbuild.lock"), "w")
+            fcntl.flock(self._gb, fcntl.LOCK_EX)
+
+    def release_genbuild(self):
+        if getattr(self, "_gb", None) is not None:
+            fcntl.flock(self._gb, fcntl.LOCK_UN)
+            self._gb.close()
+            self._gb = None
+
     def write_gen(self, mod, text):
         """Write a generated Lean module only if its content changed (keeps lake's cache valid)."""
+        self._hold_genbuild()
         p = module_path(mod)
         os.makedirs(os.path.dirname(p), exist_ok=True)
         old = open(p).read() if os.path.exists(p) else None
@@ -159,6 +174,7 @@ class Ctx:
         """Build modules; record every theorem of `prop_modules` (default: the same) as an obligation.
         Returns True iff the build succeeded."""
         prop_modules = prop_modules or modules
+        self._hold_genbuild()
         with lake_lock():
             t = time.time()
             rc, out = sh(["lake", "build"] + list(modules), cwd=LEAN, timeout=timeout)
@@ -202,6 +218,8 @@ class Ctx:
             self.obligations["build"] = False
         if rc != 0:
             self.log("BUILD OUTPUT (tail):\n" + out[-3000:])
+            # a failed build is followed by the failing-input search, not by an audit: do not keep other checks waiting
+            self.release_genbuild()
         return rc == 0
 
     def lean_audit(self, prop_modules, src_modules=None):
@@ -250,6 +268,7 @@ class Ctx:
                 ok = False
         if rc != 0:
             self.log("AUDIT OUTPUT:\n" + out[-2000:])
+        self.release_genbuild()
         return ok
 
     def leanchecker(self, modules):
@@ -297,6 +316,7 @@ class Ctx:
         self.violations.append(rec)
 
     def finish(self):
+        self.release_genbuild()
         wall = time.time() - self.t0
         n_ob = len(self.obligations)
         n_ok = sum(1 for v in self.obligations.values() if v)
